@@ -12,6 +12,19 @@ on both real queues and compared with the model *and* with each other.
              factor 1 the sorted backend splits into sub-lists at the third entry, so every multi-sub-list path of
              insert/pop/_balance_list lies inside the depth bound.  With factor 2 the first split needs seven backend
              entries, so that configuration is searched from pre-loaded six-entry start states as well.
+  widened    five further searches (factor 1, three tasks, smaller read menu or smaller priority set) widen the input
+  classes    classes instead of the depth:
+             * numeric priorities of other types - Decimal, Fraction, bool, +-inf, a large int - all exactly
+               representable as floats, tying with each other three ways (0.5) / with 1 / with 0 and None;
+             * priorities that HAVE no effective priority: ints float() cannot take (+-10**400).  The statement does
+               not say what such an add does; the check accepts an exception of any class (both queues the same) and
+               then demands that nothing changed (a task leaves the queue only by remove / pop: len, order, backends
+               as before - "after an exception" step); if both queues accept it, that branch is not explored;
+             * a user priority_key that validates (raises ValueError for negative priorities) and is otherwise the
+               default key: same rule for the rejected priorities, same order for the accepted ones;
+             * tasks that are falsy; tasks that reach the queue as equal but never identical objects (a fresh tuple per
+               call: add, re-add, remove and default all see different objects); the object None as a task (with
+               pop(None) / peek(None), whose default is then identical to a task).
   bound      tombstones make the state space infinite -> depth-bounded; exhaustive for every history up to the depth
   canon      per queue the backing storage in storage order as (priority, rank of insertion counter, task | tombstone)
              plus the sub-list boundaries of the BarrelList; tasks are renamed by first appearance in that traversal
@@ -28,11 +41,20 @@ on both real queues and compared with the model *and* with each other.
              of k consecutive dead entries at the head or behind one live task) and the first read is a bare pop /
              peek / pop(default) / peek(default); k straddles 0, powers of two, the interpreter's recursion limit and
              the first sub-list split (a cost per dead entry - stack frames, quadratic culling - shows up there).
+             "numeric-types" (thousands of Decimal / Fraction / bool / float / int / None priorities with ties across
+             types) and "rejected-readds" (churn in which every third step re-prioritises a queued task with an int
+             float() cannot take: if that raises, the task keeps its place).
+  not        priority keys that change the order or treat None specially (what "highest" / an omitted priority means
+  explored   there is not stated), NaN, ints that float() rounds (ties by effective or by given priority?), non-numeric
+             priorities float() happens to take ('7'), tasks that are == across types (1, 1.0, True), unhashable tasks,
+             subclasses with their own backend, copying / pickling a queue, concurrent use.
   hangs      every step runs under a CPU-time budget (ITIMER_VIRTUAL); a step that exceeds it is a violation
              (`does-not-terminate`), the worker skips the rest of its share and the run stops after that search.
 """
 import copy
 import signal
+from decimal import Decimal
+from fractions import Fraction
 
 from mc import core, histories
 
@@ -43,6 +65,36 @@ TASKS = ('a', 'b', 'c', 'd')
 PRIOS = (None, 0, 1, -1, 1.5)
 OP_CPU_BUDGET_S = 3.0          # CPU seconds one step (replay + operation + inspection + drain, normally < 1 ms) may take
 DEFAULT = '<default>'          # the object handed in as `default`; never a task
+
+# Numeric priorities beyond int / float literals.  In histories (which must be JSON-able) they appear as tokens; every use
+# builds a fresh object.  All values that have an effective priority are exactly representable as a float, so "highest
+# effective priority" and "highest priority value" coincide and ties are unambiguous (0.5 three ways, 1 == True,
+# 0 == False == None).  'huge' / '-huge' are perfectly good ints that have NO effective priority: float() of them raises
+# OverflowError (the statement's effective priority, a float, does not exist) - an add with such a priority is a fault step.
+PRIO_TOKENS = {
+    'D:0.5': lambda: Decimal('0.5'), 'D:-1.5': lambda: Decimal('-1.5'), 'F:1/2': lambda: Fraction(1, 2),
+    'B:True': lambda: True, 'B:False': lambda: False, 'inf': lambda: float('inf'), '-inf': lambda: float('-inf'),
+    'I:2**62': lambda: 2 ** 62, 'huge': lambda: 10 ** 400, '-huge': lambda: -10 ** 400,
+}
+NUMERIC_PRIOS = (None, 1, 'D:0.5', 'F:1/2', 'D:-1.5', 'B:True', 'B:False', 'inf', '-inf', 'I:2**62', 'huge', '-huge')
+KEYED_PRIOS = (None, 0, 1, -1, 'D:0.5', 'D:-1.5', 'huge')
+
+
+def prio(p):
+    return PRIO_TOKENS[p]() if isinstance(p, str) else p
+
+
+def nonneg_key(p):
+    """A user priority_key that validates its input and is otherwise the default key (so no question arises about
+    what "highest" means under a custom key, nor about what a key receives for an omitted priority)."""
+    if p is None:
+        return 0.0
+    if p < 0:
+        raise ValueError('negative priorities are not allowed')
+    return -float(p)
+
+
+KEYS = {'nonneg': nonneg_key}
 
 
 class Task:
@@ -55,6 +107,52 @@ class Task:
 
     def __repr__(self):
         return 'Task(%s)' % self.name
+
+
+class FalsyTask(Task):
+    """Same, and falsy (like an empty tuple or 0): `if task`, `task or default` must not be used to mean 'no task'."""
+    __slots__ = ()
+
+    def __bool__(self):
+        return False
+
+
+NONE_AS = [None]               # name of the task that IS the object None in the queues built last (kind none-task)
+
+
+def is_task(x):
+    return (isinstance(x, Task) or (type(x) is tuple and len(x) == 2 and x[0] == 'task') or
+            (x is None and NONE_AS[0] is not None))
+
+
+def task_name(x):
+    return NONE_AS[0] if x is None else x.name if isinstance(x, Task) else x[1]
+
+
+class TaskTable:
+    """name -> the task object handed to the queues.
+       objects       one Task per name (identity semantics)
+       falsy         one FalsyTask per name
+       equal-tuples  a FRESH tuple ('task', name) on every access: the queues get equal, never identical, objects
+                     for add / re-add / remove / default, so tasks must be matched by ==/hash, not by identity
+       none-task     the first task is the object None (hashable, hence a task; also everybody's favourite sentinel),
+                     the others are Task objects; pop(None) / peek(None) then pass a default identical to a task.
+                     Tasks are not interchangeable here, so canonical states keep the task names."""
+
+    def __init__(self, kind):
+        self.kind = kind
+        self.objs = {n: (FalsyTask(n) if kind == 'falsy' else Task(n)) for n in TASKS}
+        if kind == 'none-task':
+            self.objs[TASKS[0]] = None
+        NONE_AS[0] = TASKS[0] if kind == 'none-task' else None
+
+    def __getitem__(self, n):
+        if self.kind == 'equal-tuples':
+            return tuple(['task', n])
+        return self.objs[n]
+
+
+TASK_KINDS = ('objects', 'falsy', 'equal-tuples', 'none-task')
 
 
 class Hang(BaseException):
@@ -75,8 +173,20 @@ def install_guard():
 class Model:
     """Live tasks in order of (re-)insertion: [name, effective priority]."""
 
-    def __init__(self):
+    def __init__(self, key=None):
         self.live = []
+        self.key = key
+
+    def effective(self, p):
+        """The effective priority (a float, larger = earlier) or None when the priority has none: float() of it
+        raises (default key) or the caller's own priority_key rejects it."""
+        v = prio(p)
+        try:
+            if self.key is None:
+                return float(0 if v is None else v)
+            return 0.0 - KEYS[self.key](v)
+        except Exception:
+            return None
 
     def find(self, t):
         for i, e in enumerate(self.live):
@@ -91,14 +201,18 @@ class Model:
 
     def apply(self, op):
         """-> ('ok', value) | ('exc', name) where the statement fixes the outcome; ('noraise',) where it only implies
-        success (what add/remove return is not stated); ('open',) where it says nothing (removing an absent task)."""
+        success (what add/remove return is not stated); ('open',) where it says nothing (removing an absent task);
+        ('rejected',) for an add whose priority has no effective priority: whether it raises is not stated, but a
+        call that raises has neither removed nor popped anything, so the live tasks stay as they were."""
         name = op[0]
         if name in ('add', 'add1'):
-            p = op[2] if name == 'add' else None
+            eff = self.effective(op[2] if name == 'add' else None)
+            if eff is None:
+                return ('rejected',)
             i = self.find(op[1])
             if i >= 0:
                 del self.live[i]
-            self.live.append([op[1], 0.0 if p is None else float(p)])
+            self.live.append([op[1], eff])
             return ('noraise',)
         if name == 'remove':
             i = self.find(op[1])
@@ -123,7 +237,8 @@ def shape(op, model):
     """Operation shape used in signatures (never concrete values)."""
     name = op[0]
     if name in ('add', 'add1'):
-        return 're-add' if model.find(op[1]) >= 0 else 'add'
+        rej = '(rejected-priority)' if model.effective(op[2] if name == 'add' else None) is None else ''
+        return ('re-add' if model.find(op[1]) >= 0 else 'add') + rej
     if name == 'remove':
         return 'remove' if model.find(op[1]) >= 0 else 'remove(absent)'
     return {'pop': 'pop', 'popd': 'pop(default)', 'popn': 'pop(default)', 'peek': 'peek', 'peekd': 'peek(default)',
@@ -134,8 +249,8 @@ def shape(op, model):
 # implementation side
 
 def show(v):
-    if isinstance(v, Task):
-        return v.name
+    if is_task(v):
+        return task_name(v)
     if v is DEFAULT:
         return DEFAULT
     if v is None or isinstance(v, int):
@@ -147,7 +262,7 @@ def impl_apply(q, op, T):
     name = op[0]
     try:
         if name == 'add':
-            return ('ok', show(q.add(T[op[1]], op[2])))
+            return ('ok', show(q.add(T[op[1]], prio(op[2]))))
         if name == 'add1':
             return ('ok', show(q.add(T[op[1]])))
         if name == 'remove':
@@ -187,7 +302,7 @@ def ranked(subs):
     """[(priority, rank of counter, Task | None)] per sub-list; None = tombstone."""
     flat = [e for sub in subs for e in sub]
     ranks = {c: i for i, c in enumerate(sorted({e[1] for e in flat}))}
-    return [[(e[0], ranks[e[1]], e[2] if isinstance(e[2], Task) else None) for e in sub] for sub in subs]
+    return [[(e[0], ranks[e[1]], e[2] if is_task(e[2]) else None) for e in sub] for sub in subs]
 
 
 def inspect(q, which, model):
@@ -205,24 +320,24 @@ def inspect(q, which, model):
             for i in range(1, len(keys)):
                 if not keys[i - 1] < keys[i]:
                     return ('backend-order', 'entries ascending by (effective priority, counter) across sub-lists',
-                            [[(e[0], e[1], show(e[2]) if isinstance(e[2], Task) else 'REMOVED') for e in sub]
+                            [[(e[0], e[1], show(e[2]) if is_task(e[2]) else 'REMOVED') for e in sub]
                              for sub in subs])
         else:
             for i in range(1, len(keys)):
                 if not keys[(i - 1) // 2] < keys[i]:
                     return ('heap-property', 'parent < child by (effective priority, counter)',
-                            [(e[0], e[1], show(e[2]) if isinstance(e[2], Task) else 'REMOVED') for e in flat])
-        live = sorted((e for e in flat if isinstance(e[2], Task)), key=lambda e: (e[0], e[1]))
+                            [(e[0], e[1], show(e[2]) if is_task(e[2]) else 'REMOVED') for e in flat])
+        live = sorted((e for e in flat if is_task(e[2])), key=lambda e: (e[0], e[1]))
         want = model.order()
-        got = [e[2].name for e in live]
+        got = [task_name(e[2]) for e in live]
         if got != want:
             return ('live-entries', want, got)
         emap = q._entry_map
-        if sorted(t.name if isinstance(t, Task) else repr(t) for t in emap) != sorted(want):
-            return ('entry-map', sorted(want), sorted(t.name if isinstance(t, Task) else repr(t) for t in emap))
+        if sorted(task_name(t) if is_task(t) else repr(t) for t in emap) != sorted(want):
+            return ('entry-map', sorted(want), sorted(task_name(t) if is_task(t) else repr(t) for t in emap))
         for e in live:
             if emap[e[2]] is not e:
-                return ('entry-map', 'maps each live task to its backend entry', 'stale entry for ' + e[2].name)
+                return ('entry-map', 'maps each live task to its backend entry', 'stale entry for ' + task_name(e[2]))
         cnt = getattr(q, '_counter', None)
         if cnt is not None and flat:
             try:
@@ -241,13 +356,16 @@ def canon(hq, sq):
     backing storage in storage order, sub-lists separated by '/', entries 'priority,counter rank,task label'
     ('~' = tombstone); tasks are labelled by first appearance; then the labels of the entry-map keys."""
     names = {}
+    if NONE_AS[0] is not None:
+        names = {n: n for n in TASKS}          # no renaming: None and the Task objects are not interchangeable
     out = []
     for which, q in (('heap', hq), ('sorted', sq)):
         out.append('/'.join(
-            ' '.join('%r,%d,%s' % (p, r, '~' if t is None else names.setdefault(t.name, len(names))) for p, r, t in sub)
+            ' '.join('%r,%d,%s' % (p, r, '~' if t is None else names.setdefault(task_name(t), len(names)))
+                     for p, r, t in sub)
             for sub in ranked(entries_of(q, which))))
     for q in (hq, sq):
-        out.append(','.join(sorted(str(names.setdefault(t.name, len(names))) if isinstance(t, Task) else '?'
+        out.append(','.join(sorted(str(names.setdefault(task_name(t), len(names))) if is_task(t) else '?'
                                    for t in q._entry_map)))
     return '|'.join(out)
 
@@ -288,17 +406,26 @@ PRELOADS = {
 
 
 class Spec:
-    def __init__(self, factor, starts=('empty',), tasks=TASKS, prios=PRIOS):
+    def __init__(self, factor, starts=('empty',), tasks=TASKS, prios=PRIOS, key=None, task_kind='objects',
+                 reads='full'):
         self.factor = factor                    # None = native
         self.starts = tuple(starts)
         self.tasks, self.prios = tuple(tasks), tuple(prios)
+        self.key, self.task_kind, self.reads = key, task_kind, reads
         self.config = {'size_factor': 'native' if factor is None else factor, 'starts': list(self.starts),
-                       'tasks': list(self.tasks), 'priorities': list(self.prios)}
+                       'tasks': list(self.tasks), 'priorities': list(self.prios),
+                       'priority_key': 'default' if key is None else key, 'task_kind': task_kind, 'reads': reads}
         self.menu = self._menu()
 
     def _menu(self):
-        m = [('len',), ('peek',), ('peekd',), ('peekn',), ('pop',), ('popd',), ('popn',),
-             ('popt', self.tasks[0]), ('peekt', self.tasks[0])]     # a default that is identical to a queued task
+        if self.reads == 'full':
+            m = [('len',), ('peek',), ('peekd',), ('peekn',), ('pop',), ('popd',), ('popn',),
+                 ('popt', self.tasks[0]), ('peekt', self.tasks[0])]     # a default that is identical to a queued task
+        else:
+            # len, a full drain and the emptied queue's answers are observed after every transition anyway
+            m = [('peek',), ('pop',), ('popd',)]
+            if self.reads == 'reduced+task-default':
+                m += [('popt', self.tasks[0]), ('peekt', self.tasks[0])]
         for t in self.tasks:
             m.append(('add1', t))
             for p in self.prios:
@@ -318,8 +445,9 @@ class Spec:
         """Fresh real queues + model, history replayed on all three."""
         from boltons import queueutils
         self.set_scale()
-        T = {n: Task(n) for n in TASKS}
-        hq, sq, model = queueutils.HeapPriorityQueue(), queueutils.SortedPriorityQueue(), Model()
+        T = TaskTable(self.task_kind)
+        kw = {} if self.key is None else {'priority_key': KEYS[self.key]}
+        hq, sq, model = queueutils.HeapPriorityQueue(**kw), queueutils.SortedPriorityQueue(**kw), Model(self.key)
         for op in hist:
             impl_apply(hq, op, T)
             impl_apply(sq, op, T)
@@ -331,6 +459,9 @@ class Spec:
         try:
             hq, sq, _, _ = self.build(hist)
             return canon(hq, sq)
+        except Exception as e:
+            # queues that cannot even be built / read: expand() reports it on the first transition
+            return 'unbuildable:%s:%r' % (type(e).__name__, hist)
         finally:
             signal.setitimer(signal.ITIMER_VIRTUAL, 0)
 
@@ -374,7 +505,12 @@ class Spec:
             return V, where['key'], where['label']
 
     def _step(self, hist, op, V, case, where):
-        hq, sq, model, T = self.build(hist)
+        try:
+            hq, sq, model, T = self.build(hist)
+        except Exception as e:
+            V.append(('C10|op:construct|raised', case, 'queues are built (priority_key=%s) and the history replays'
+                      % self.config['priority_key'], type(e).__name__, None, ()))
+            return V, None, ('construct', type(e).__name__)
         sh = where['shape'] = shape(op, model)
         empty_before = not model.live
 
@@ -391,14 +527,14 @@ class Spec:
         where['label'] = label
         ok = True
         for which, r in (('heap', r_h), ('sorted', r_s)):
-            if r_m[0] == 'open':
+            if r_m[0] in ('open', 'rejected'):
                 pass
             elif r_m[0] == 'noraise':
                 if r[0] != 'ok':
                     bad('%s:result' % which, 'no exception', r); ok = False
             elif r != r_m:
                 bad('%s:result' % which, r_m, r); ok = False
-        if r_m[0] in ('open', 'noraise'):
+        if r_m[0] in ('open', 'noraise', 'rejected'):
             # returned values are not part of the statement here; success / exception class must still be the same
             c_h, c_s = (r_h if r_h[0] == 'exc' else ('ok',)), (r_s if r_s[0] == 'exc' else ('ok',))
         else:
@@ -406,6 +542,10 @@ class Spec:
         if c_h != c_s:
             bad('heap!=sorted:result', 'identical outcomes', {'heap': r_h, 'sorted': r_s}); ok = False
         if not ok:
+            return V, None, label
+        if r_m[0] == 'rejected' and r_h[0] == 'ok':
+            # both queues accepted a priority that has no effective priority: where the task belongs is not stated
+            label = where['label'] = (sh, 'accepted (not explored further)')
             return V, None, label
         for which, q in (('heap', hq), ('sorted', sq)):
             where['phase'] = which + ':len'
@@ -477,6 +617,25 @@ def _scenario_ops(kind, n):
         for i in range(n):
             if i % 10 < 7:
                 yield ('remove', i, None)
+    elif kind == 'numeric-types':
+        # priorities of every numeric type float() takes, all exactly representable (ties are unambiguous)
+        for i in range(n):
+            yield ('add', i, (Decimal(i % 7) / 2, Fraction(i % 5, 2), bool(i % 4 == 2), float(i % 3) - 0.5, i % 11 - 5,
+                              None, Decimal('-1.5'), 2 ** 62 if i % 96 == 7 else -2 ** 62)[i % 8])
+            if i % 3 == 2:
+                yield ('add', i // 2, Fraction(i % 7, 2))      # re-add: ties with the Decimal halves above
+    elif kind == 'rejected-readds':
+        # fault steps: every third step re-prioritises a queued task (and now and then adds a new one) with an int
+        # that float() cannot take; such an add has no effective priority to queue the task at - if it raises, the
+        # task keeps its place (it was neither removed nor popped)
+        for i in range(n):
+            yield ('add', i, i % 7)
+            if i % 3 == 2:
+                yield ('addx', i // 2, 10 ** 400 if i % 2 else -10 ** 400)
+            if i % 50 == 49:
+                yield ('addx', n + 1, 10 ** 400)               # a task that is not queued
+            if i % 5 == 4:
+                yield ('remove', i // 3, None)
     elif kind.startswith('deadrun:'):
         yield from _deadrun_ops(kind, n)
     else:
@@ -646,6 +805,26 @@ def run_directed(arg):
                 if not read(name):
                     return
                 continue
+            if name == 'addx':
+                got = {}
+                for which, q in qs.items():
+                    try:
+                        q.add(T[i], p)
+                        got[which] = 'accepted'
+                    except Exception as e:
+                        got[which] = 'raised ' + type(e).__name__
+                stats['ops'] += 2
+                if got['heap'] != got['sorted']:
+                    V.append(('C10|directed|heap!=sorted:add(rejected-priority)', case, 'identical outcomes', got, None, ()))
+                    return
+                if got['heap'] == 'accepted':
+                    stats['stopped'] = 'a priority without effective priority was accepted: order not stated'
+                    return
+                for which, q in qs.items():
+                    if len(q) != len(live):
+                        V.append(('C10|directed|%s:len-after-add-raised' % which, case, len(live), len(q), None, ()))
+                        return
+                continue
             for which, q in qs.items():
                 try:
                     if name == 'add':
@@ -706,6 +885,10 @@ DIRECTED_KINDS = ('ascending', 'descending', 'equal', 'alternating', 'churn')
 def directed_plan(tier):
     """(kind, number of tasks, size factor); at the native factor the sorted backend splits beyond ~22 000 entries."""
     plan = [(k, 40000, None) for k in DIRECTED_KINDS] + [('purge', 300, None), ('purge', 3000, None)]
+    plan += [('numeric-types', 4000, None), ('rejected-readds', 4000, None)]
+    if tier != 'quick':
+        plan += [('numeric-types', 40000, None), ('rejected-readds', 40000, None), ('numeric-types', 3000, 8),
+                 ('rejected-readds', 3000, 8)]
     if tier != 'quick':
         plan += [(k, 80000, None) for k in DIRECTED_KINDS] + [(k, 6000, 8) for k in DIRECTED_KINDS]
     return plan + deadrun_plan(tier)
@@ -751,10 +934,24 @@ SIX = ('equal6', 'rising6', 'falling6')
 
 def plan(tier):
     """(Spec, max_depth) per search.  The native configuration never splits its BarrelList inside the bound (that is
-    what the scaled configurations are for); it checks the unscaled code paths the queues use at small sizes."""
+    what the scaled configurations are for); it checks the unscaled code paths the queues use at small sizes.
+    The last five searches widen the *input classes* rather than the depth: numeric priorities of other types
+    (Decimal, Fraction, bool, infinities, a large int) and ints float() cannot take (the add is a fault step: if it
+    raises, nothing may have changed); the same with a validating user priority_key; tasks that are falsy; tasks that
+    reach the queue as equal but never identical objects; None as a task."""
+    t3 = TASKS[:3]
     if tier == 'quick':
-        return [(Spec(1), 6), (Spec(2, starts=SIX), 3), (Spec(None), 4)]
-    return [(Spec(1), 7), (Spec(1, **REDUCED), 8), (Spec(2, starts=SIX), 4), (Spec(2, **REDUCED), 8), (Spec(None), 5)]
+        return [(Spec(1), 6), (Spec(2, starts=SIX), 3), (Spec(None), 4),
+                (Spec(1, tasks=t3, prios=NUMERIC_PRIOS, reads='reduced'), 4),
+                (Spec(1, tasks=t3, prios=KEYED_PRIOS, key='nonneg', reads='reduced'), 4),
+                (Spec(1, task_kind='falsy', **REDUCED), 5), (Spec(1, task_kind='equal-tuples', **REDUCED), 5),
+                (Spec(1, task_kind='none-task', reads='reduced+task-default', **REDUCED), 4)]
+    return [(Spec(1), 7), (Spec(1, **REDUCED), 8), (Spec(2, starts=SIX), 4), (Spec(2, **REDUCED), 8), (Spec(None), 5),
+            (Spec(1, tasks=t3, prios=NUMERIC_PRIOS, reads='reduced'), 5),
+            (Spec(1, tasks=t3, prios=KEYED_PRIOS, key='nonneg', reads='reduced'), 5),
+            (Spec(None, tasks=t3, prios=KEYED_PRIOS, key='nonneg', reads='reduced'), 4),
+            (Spec(1, task_kind='falsy', **REDUCED), 6), (Spec(1, task_kind='equal-tuples', **REDUCED), 6),
+            (Spec(1, task_kind='none-task', reads='reduced+task-default', **REDUCED), 5)]
 
 
 def validate_starts(spec, ctx):
@@ -795,9 +992,10 @@ def run(ctx):
             pre_steps += validate_starts(spec, ctx)
             res = histories.explore(spec, ctx, max_depth=depth)
             parts.append((dict(spec.config, max_depth=depth), res))
-            ctx.note('size_factor=%s starts=%s tasks=%d prios=%d: depth=%d states=%d transitions=%d capped=%s'
-                     % (spec.config['size_factor'], ','.join(spec.starts), len(spec.tasks), len(spec.prios),
-                        res.depth, res.states, res.transitions, res.capped))
+            ctx.note('size_factor=%s starts=%s tasks=%d(%s) prios=%d key=%s: depth=%d states=%d transitions=%d capped=%s'
+                     % (spec.config['size_factor'], ','.join(spec.starts), len(spec.tasks), spec.task_kind,
+                        len(spec.prios), spec.config['priority_key'], res.depth, res.states, res.transitions,
+                        res.capped))
             if any('does-not-terminate' in k for k in ctx.viol):
                 ctx.note('an operation does not terminate: remaining searches and the supplement are skipped')
                 stopped = True
@@ -816,7 +1014,9 @@ def run(ctx):
     cov['preload_steps_validated'] = pre_steps
     cov['exhaustive_means'] = ('every history over the op menu up to max_depth was executed, per search and start state '
                                '(depth bound, not a fixpoint); the native-scale supplement is excluded from this claim')
-    cov['bounds'] = {'tasks': list(TASKS), 'priorities': list(PRIOS), 'ops': [m[0] for m in Spec(1).menu[:7]] +
+    cov['bounds'] = {'tasks': list(TASKS), 'priorities': list(PRIOS),
+                     'numeric_type_priorities': list(NUMERIC_PRIOS), 'priority_keys': ['default'] + sorted(KEYS),
+                     'keyed_priorities': list(KEYED_PRIOS), 'task_kinds': list(TASK_KINDS), 'ops': [m[0] for m in Spec(1).menu[:7]] +
                      ['add(t)', 'add(t,p)', 'remove(t)'],
                      'depth_per_search': [c['max_depth'] for c, _ in parts],
                      'native_size_factor': NATIVE[0]}
@@ -827,8 +1027,9 @@ def run(ctx):
            'removed / re-added lower / re-added with the same priority / re-added higher before anything is consumed '
            '(one run of k consecutive dead entries at the very head or behind one live task), then pop / peek / '
            'pop(default) / peek(default) as the FIRST read, pop, peek, pop, popped to empty, for k around 0, powers of '
-           'two, the interpreter recursion limit and beyond the first sub-list split; all against a dict + stable-sort '
-           'oracle', 'scenarios': []}
+           'two, the interpreter recursion limit and beyond the first sub-list split; priorities of all numeric types '
+           'with cross-type ties; churn with re-adds whose priority float() cannot take (must leave the task in place '
+           'if they raise); all against a dict + stable-sort oracle', 'scenarios': []}
     for V, stats in dres:
         for v in V:
             ctx.violation(*v)
@@ -847,6 +1048,13 @@ def run(ctx):
         'removing an absent task: the statement fixes no outcome; any exception class or return is accepted, but both '
         'queues must do the same and the live tasks must stay as they were; add / remove of a present task must not '
         'raise, what they return is not compared with the model',
+        'an add whose priority has no effective priority (float() of it raises, or the harness\'s own validating '
+        'priority_key rejects it): the statement fixes no outcome; any exception class is accepted, both queues must '
+        'do the same, and after an exception the live tasks, their order and len must be as before; if both queues '
+        'accept the priority the branch is not explored (where the task belongs is not stated)',
+        'priorities of non-float numeric types are chosen exactly representable as floats, so ordering by the given '
+        'value and by the effective (float) priority coincide; the validating priority_key equals the default key on '
+        'everything it accepts and maps None like 0',
         'the search is depth-bounded (tombstones make the state space infinite); the native-scale supplement is a '
         'finite list of directed histories, not an enumeration',
     ]
@@ -869,8 +1077,10 @@ def replay(ctx, data):
             V, _ = run_directed((d['kind'], d['n'], None if d['size_factor'] == 'native' else d['size_factor']))
             return ['%s expected=%r observed=%r' % (v[0], v[2], v[3]) for v in V]
         cfg = case['config']
+        key = cfg.get('priority_key', 'default')
         spec = Spec(None if cfg['size_factor'] == 'native' else cfg['size_factor'], tasks=cfg['tasks'],
-                    prios=cfg['priorities'])
+                    prios=cfg['priorities'], key=None if key == 'default' else key,
+                    task_kind=cfg.get('task_kind', 'objects'), reads=cfg.get('reads', 'full'))
         hist = [_tuplify(op) for op in case['history']]
         for i in range(len(hist)):
             V, key, _ = spec.step(tuple(hist[:i]), hist[i])
